@@ -202,7 +202,7 @@ func hasDupKeysOrBadUTF8(b []byte) bool {
 // ---------------------------------------------------------------- (a)+(b) fidelity
 
 func c03Fidelity(c *Ctx, sh *shard) {
-	nWorlds := c.pick(10, 150)
+	nWorlds := c.pick(8, 150)
 	for wi := 0; wi < nWorlds; wi++ {
 		tc := c.tGenConfig()
 		w := c.tNewWorld(tc)
